@@ -1,2 +1,13 @@
 import Emitter.Props.C02
-#print axioms Emitter.C02.placeholder
+#print axioms Emitter.C02.sync_init
+#print axioms Emitter.C02.sync_accept
+#print axioms Emitter.C02.sync_step
+#print axioms Emitter.C02.sync_history
+#print axioms Emitter.C02.deliver_spec
+#print axioms Emitter.C02.deliver_once
+#print axioms Emitter.C02.publish_exact
+#print axioms Emitter.C02.subscribe_records
+#print axioms Emitter.C02.unsubscribe_removes
+#print axioms Emitter.C02.reject_subscribe
+#print axioms Emitter.C02.reject_unsubscribe
+#print axioms Emitter.C02.reject_publish
